@@ -1,4 +1,5 @@
 import JSight.CheckExample
+import JSight.CheckExampleConv
 /-!
 # C04 — Check accepts a schema only if its own EXAMPLE obeys its rules
 
@@ -7,14 +8,24 @@ checker on the example token and by the validator on document tokens) and in `ex
 token of a literal node). `checked` = what the checker establishes on a plain-JSON schema: every
 literal passes `litOK` on its own example, object keys are unique. Then validating the example document
 succeeds — for every nesting, any literal rule semantics.
-The converse half ("a violated rule makes Check fail at the position of the value") is checked against
-the code (harness `c04-check-example`), see DESIGN.md §4 C04.
+`C04_checked_iff`: with unique keys the checker's conditions hold *exactly* when the EXAMPLE validates, so
+on the model a violated rule anywhere in the EXAMPLE makes `checked` false. That the real `Check` reports it
+at the position of the value is checked against the code (harness `c04-check-example`), see DESIGN.md §4 C04.
 -/
 namespace Props.C04
 
 theorem C04_example_valid {L D : Type} (litOK : L → D → Bool) (ex : L → D) (s : VP.S L)
     (h : VP.checked litOK ex s = true) : VP.validate litOK s (VP.exampleOf ex s) = true :=
   VP.C04_example_valid litOK ex s h
+
+/-- the checker's conditions demand nothing beyond "the EXAMPLE obeys its rules" (keys unique in every object) -/
+theorem C04_checked_iff {L D : Type} (litOK : L → D → Bool) (ex : L → D) (s : VP.S L) (hn : VP.nodupAll s = true) :
+    VP.checked litOK ex s = true ↔ VP.validate litOK s (VP.exampleOf ex s) = true :=
+  VP.C04_checked_iff litOK ex s hn
+
+/-- a violated rule in the EXAMPLE (here: the nested literal 3 against the rule "= 4") makes the conditions fail -/
+example : VP.checked (fun (l : Nat) (d : Nat) => l == d) (fun l => if l == 4 then 3 else l)
+    (.obj [("a", true, .lit 1), ("b", false, .arr [.lit 2, .obj [("c", true, .lit 4)]])]) = false := by decide +kernel
 
 /-! Non-vacuity: a schema that satisfies the hypothesis -/
 example : VP.checked (fun (l : Nat) (d : Nat) => l == d) id
